@@ -28,6 +28,7 @@ import (
 	"verifharness/world"
 
 	ccpb "github.com/google/go-tdx-guest/proto/checkconfig"
+	pb "github.com/google/go-tdx-guest/proto/tdx"
 	"github.com/google/go-tdx-guest/verify"
 	"google.golang.org/protobuf/encoding/prototext"
 	"google.golang.org/protobuf/proto"
@@ -329,6 +330,35 @@ func c19(x *mon.Ctx) {
 					args = append(args, v)
 				}
 				add("baseline", name+"/"+v, "", 2, -1, false, args...)
+			}
+		}
+	}
+	{ // messages whose header is not a header (SVN fields of one byte, no bytes, no header at all), as proto and textproto, at
+		// every verbosity: refused (1 or 2), never a crash
+		base0 := proto.Clone(msg).(*pb.QuoteV4)
+		for name, edit := range map[string]func(m *pb.QuoteV4){
+			"qe-svn-one-byte":   func(m *pb.QuoteV4) { m.Header.QeSvn = []byte{7} },
+			"pce-svn-empty":     func(m *pb.QuoteV4) { m.Header.PceSvn = []byte{} },
+			"both-svn-absent":   func(m *pb.QuoteV4) { m.Header.QeSvn, m.Header.PceSvn = nil, nil },
+			"no-header":         func(m *pb.QuoteV4) { m.Header = nil },
+			"no-body":           func(m *pb.QuoteV4) { m.TdQuoteBody = nil },
+			"no-signed-data":    func(m *pb.QuoteV4) { m.SignedData = nil },
+			"mr-td-three-bytes": func(m *pb.QuoteV4) { m.TdQuoteBody.MrTd = []byte{1, 2, 3} },
+			"rtmrs-two-entries": func(m *pb.QuoteV4) { m.TdQuoteBody.Rtmrs = m.TdQuoteBody.Rtmrs[:2] },
+		} {
+			m := proto.Clone(base0).(*pb.QuoteV4)
+			edit(m)
+			bin, _ := proto.Marshal(m)
+			txt, _ := prototext.Marshal(m)
+			fb, ft := write("odd-"+name+".pb", bin), write("odd-"+name+".textproto", txt)
+			for _, v := range []string{"", "-verbosity=1", "-verbosity=2", "-verbosity=3"} {
+				for form, f := range map[string]string{"proto": fb, "textproto": ft} {
+					args := []string{"-in", f, "-inform", form, "-trusted_roots", rootf}
+					if v != "" {
+						args = append(args, v)
+					}
+					add("odd-message", name+"/"+form+"/"+v, "", 1, 2, false, args...)
+				}
 			}
 		}
 	}
@@ -1020,6 +1050,7 @@ func c19(x *mon.Ctx) {
 		}
 	}
 	x.Require("baseline", 1, 12, 13)
+	x.Require("odd-message", 0, 64, 64)
 	x.Require("stdin-kind", 12, 9, 21)
 	x.Require("relative-paths", 12, 6, 18)
 	x.Require("network", 5, 12, 20)
